@@ -259,11 +259,11 @@ Definition finish_write (x : spoll * awriter * asink) : wpoll * awriter * asink 
   end.
 
 (* async_writer.rs:81-94  one Future::poll of the write_with future for the value whose encoding outcome is e *)
-Definition aw_poll (ovf : bool) (fuel : nat) (fut : wfut) (e : enc_res) (w : awriter) (k : asink)
+Definition aw_poll (fuel : nat) (fut : wfut) (e : enc_res) (w : awriter) (k : asink)
   : wpoll * awriter * asink :=
   match fut with
   | WfStart =>
-      match build_frame ovf (aw_buf w) (aw_max w) e with               (* :82-88 *)
+      match build_frame (aw_buf w) (aw_max w) e with                   (* :82-88 *)
       | BErr er b => (WReady (WErr er), mkawriter b (aw_max w) (aw_state w), k)     (* state not touched *)
       | BPanic b => (WReady WPanic, mkawriter b (aw_max w) (aw_state w), k)
       | BOk b => finish_write (sync_poll fuel SStart (mkawriter b (aw_max w) (WriteFrom 0)) k)   (* :89, :91 *)
@@ -277,50 +277,50 @@ Inductive wmode := MWrite (f : wfut) | MSync (f : sfut).
 (* The caller protocol of C16 for one value: call write; if its future is dropped while pending, or
    returns an error, call sync and drive it (re-creating it when dropped or when it returns an error)
    until it returns Ok. *)
-Fixpoint aw_session (fuel : nat) (ovf : bool) (calls : list ctok) (m : wmode) (e : enc_res) (w : awriter) (k : asink)
+Fixpoint aw_session (fuel : nat) (calls : list ctok) (m : wmode) (e : enc_res) (w : awriter) (k : asink)
   : list wev * list ctok * awriter * asink :=
   match fuel with
   | O => ([EvS SFuel], calls, w, k)
   | S f =>
       match m with
       | MWrite fu =>
-          match aw_poll ovf (asink_fuel k) fu e w k with
+          match aw_poll (asink_fuel k) fu e w k with
           | (WReady (WErr er), w1, k1) =>
-              let '(evs, c, w2, k2) := aw_session f ovf calls (MSync SStart) e w1 k1 in (EvW (WErr er) :: evs, c, w2, k2)
+              let '(evs, c, w2, k2) := aw_session f calls (MSync SStart) e w1 k1 in (EvW (WErr er) :: evs, c, w2, k2)
           | (WReady r, w1, k1) => ([EvW r], calls, w1, k1)
           | (WPend, w1, k1) =>
               match calls with
-              | CDrop :: c => aw_session f ovf c (MSync SStart) e w1 k1
-              | CPoll :: c => aw_session f ovf c (MWrite WfInSync) e w1 k1
-              | [] => aw_session f ovf [] (MWrite WfInSync) e w1 k1
+              | CDrop :: c => aw_session f c (MSync SStart) e w1 k1
+              | CPoll :: c => aw_session f c (MWrite WfInSync) e w1 k1
+              | [] => aw_session f [] (MWrite WfInSync) e w1 k1
               end
           end
       | MSync fu =>
           match sync_poll (asink_fuel k) fu w k with
           | (SyReady (SErr er), w1, k1) =>
-              let '(evs, c, w2, k2) := aw_session f ovf calls (MSync SStart) e w1 k1 in (EvS (SErr er) :: evs, c, w2, k2)
+              let '(evs, c, w2, k2) := aw_session f calls (MSync SStart) e w1 k1 in (EvS (SErr er) :: evs, c, w2, k2)
           | (SyReady r, w1, k1) => ([EvS r], calls, w1, k1)
           | (SyPend, w1, k1) =>
               match calls with
-              | CDrop :: c => aw_session f ovf c (MSync SStart) e w1 k1
-              | CPoll :: c => aw_session f ovf c (MSync SAtWrite) e w1 k1
-              | [] => aw_session f ovf [] (MSync SAtWrite) e w1 k1
+              | CDrop :: c => aw_session f c (MSync SStart) e w1 k1
+              | CPoll :: c => aw_session f c (MSync SAtWrite) e w1 k1
+              | [] => aw_session f [] (MSync SAtWrite) e w1 k1
               end
           end
       end
   end.
 
-Definition aw_write_call (ovf : bool) (calls : list ctok) (e : enc_res) (w : awriter) (k : asink) :=
-  aw_session (2 * length (k_sched k) + 4) ovf calls (MWrite WfStart) e w k.
+Definition aw_write_call (calls : list ctok) (e : enc_res) (w : awriter) (k : asink) :=
+  aw_session (2 * length (k_sched k) + 4) calls (MWrite WfStart) e w k.
 
 (* all values in order, then one sync on the idle writer *)
-Fixpoint aw_run (ovf : bool) (calls : list ctok) (es : list enc_res) (w : awriter) (k : asink)
+Fixpoint aw_run (calls : list ctok) (es : list enc_res) (w : awriter) (k : asink)
   : list (list wev) * spoll * awriter * asink :=
   match es with
   | [] => let '(sp, w1, k1) := sync_poll (asink_fuel k) SStart w k in ([], sp, w1, k1)
   | e :: t =>
-      let '(evs, c1, w1, k1) := aw_write_call ovf calls e w k in
-      let '(rest, fin, w2, k2) := aw_run ovf c1 t w1 k1 in
+      let '(evs, c1, w1, k1) := aw_write_call calls e w k in
+      let '(rest, fin, w2, k2) := aw_run c1 t w1 k1 in
       (evs :: rest, fin, w2, k2)
   end.
 
@@ -330,6 +330,6 @@ Definition aio_read_run (max : N) (ok : list bytes) (data : bytes) (sched : list
   : list (outcome bytes) * areader * asrc :=
   ar_stream bytes (dec_tab ok) calls (areader_new max) (mkasrc data sched 0).
 
-Definition aio_write_run (ovf : bool) (max : N) (es : list enc_res) (sched : list ktok) (calls : list ctok)
+Definition aio_write_run (max : N) (es : list enc_res) (sched : list ktok) (calls : list ctok)
   : list (list wev) * spoll * awriter * asink :=
-  aw_run ovf calls es (mkawriter [] max WNone) (mkasink [] sched 0).
+  aw_run calls es (mkawriter [] max WNone) (mkasink [] sched 0).
